@@ -241,6 +241,47 @@ func c20Case(c *ctx, fs []sfieldSpec, byValue bool, how string) {
 			if !reflect.DeepEqual(w.Attrs(), typ.Attrs) || !reflect.DeepEqual(w.Rels(), typ.Rels) || w.GetType().Name != typ.Name {
 				fail("wrapper-type-differs-from-built-type", "")
 			}
+			// copies and new instances report the same structure, and editing what one of them
+			// reports (a Type value, an Attrs / Rels map) does not reach the wrapper they came from
+			if p, pv := guard(func() {
+				for _, other := range []jsonapi.Resource{w.Copy(), w.New(), typ.New()} {
+					if !reflect.DeepEqual(other.Attrs(), typ.Attrs) || !reflect.DeepEqual(other.Rels(), typ.Rels) {
+						fail("wrapper-type-differs-from-built-type", "a copy / new instance reports another structure")
+					}
+					ot := other.GetType()
+					for n := range ot.Attrs {
+						ot.RemoveAttr(n)
+						break
+					}
+					for n := range ot.Rels {
+						ot.RemoveRel(n)
+						break
+					}
+					_ = ot.AddAttr(jsonapi.Attr{Name: "via-gettype", Type: jsonapi.AttrTypeInt})
+					am, rm := other.Attrs(), other.Rels()
+					for n := range am {
+						delete(am, n)
+					}
+					for n := range rm {
+						delete(rm, n)
+					}
+				}
+				bt2, err2 := jsonapi.BuildType(reflect.New(st).Interface())
+				if err2 != nil || !reflect.DeepEqual(w.Attrs(), bt2.Attrs) || !reflect.DeepEqual(w.Rels(), bt2.Rels) || !reflect.DeepEqual(jsonapi.Wrap(reflect.New(st).Interface()).Attrs(), bt2.Attrs) {
+					fail("copy-shares-structure", "editing the structure reported by a copy / new instance changed what the wrapper or a later instance reports")
+				}
+				// the wrapper reads the struct, whenever the struct was filled
+				v := reflect.New(st)
+				lw := jsonapi.Wrap(v.Interface())
+				if idf := v.Elem().FieldByName("ID"); idf.Kind() == reflect.String {
+					idf.SetString("filled-after-wrap")
+					if lw.Get("id") != "filled-after-wrap" || lw.GetID() != "filled-after-wrap" || lw.Copy().Get("id") != "filled-after-wrap" {
+						fail("accepted-struct-field-not-kept", fmt.Sprintf("struct filled after Wrap: id reads %q", lw.GetID()))
+					}
+				}
+			}); p {
+				fail("accepted-struct-method-panics", fmt.Sprint(pv))
+			}
 		}
 	}
 	var descs []string
@@ -611,6 +652,31 @@ func runWCopies(c *ctx) {
 				v = ptrTo(v)
 			}
 			wcopyCase(c, all, []setOp{{f.name, v}}, "dictionary "+f.name)
+		}
+	}
+	// several fields of one kind, some set, some not: what the copy of one reads must not
+	// come from another (repeated: Copy walks the fields in map order)
+	many := typeSpec{name: "many4", fields: []fieldSpec{
+		{rel: true, name: "r1", target: "other"}, {rel: true, name: "r2", target: "other"}, {rel: true, name: "r3", target: "other"}, {rel: true, name: "r4", target: "other"},
+		{rel: true, name: "o1", toOne: true, target: "other"}, {rel: true, name: "o2", toOne: true, target: "other"},
+		{name: "b1", code: 14}, {name: "b2", code: 14}, {name: "pb1", code: 14, nullable: true}, {name: "pb2", code: 14, nullable: true},
+		{name: "s1", code: 1, nullable: true}, {name: "s2", code: 1, nullable: true}}}
+	pb := []byte{7, 8}
+	ps := "x"
+	for mask := 1; mask < 16; mask += 3 {
+		var ops []setOp
+		for i, rn := range []string{"r1", "r2", "r3", "r4"} {
+			if mask&(1<<i) != 0 {
+				ops = append(ops, setOp{rn, []string{fmt.Sprint("t", i), "t9"}})
+			}
+		}
+		if mask&1 != 0 {
+			ops = append(ops, setOp{"o1", "u1"}, setOp{"b1", []byte{1, 2}}, setOp{"pb1", &pb}, setOp{"s1", &ps})
+		} else {
+			ops = append(ops, setOp{"o2", "u2"}, setOp{"b2", []byte{3}}, setOp{"pb2", &pb}, setOp{"s2", &ps})
+		}
+		for k := 0; k < 3; k++ {
+			wcopyCase(c, many, ops, "several-fields-of-a-kind")
 		}
 	}
 	n := 60
